@@ -131,7 +131,15 @@ chk('C08', 'model_checking',
     'reference relation (no duplicates, no removed tracks, other pairs untouched); containing_crates() is compared where the generation implements it.',
     'Trusted: as C07 (reference relation in harness/h_members.h). Tracks of other databases in a playlist are outside. Two listed known findings (1.x reuses the id of a removed crate / track).',
     'bounded symbolic execution of LLVM IR (lsx, z3) over a relational sqlite3 model parsed from the DDL + native replay against the real SQLite', 'DESIGN.md §3 C08')
-na('C11', 'judged by an independent reader of the stored SQLite file (integrity / foreign-key checks, verify(), triple crate encoding): facts about SQLite executing SQL; the sub-claims that reduce to other obligations are covered there (blob decodability: C03; derived file name/extension: C06) and the 2.x chain invariants are what C09 observes through the public listings; the 1.x triple crate encoding is exercised only through the public queries of C07 (children via CrateParentList, descendants via CrateHierarchy, lookups via titles), not by an independent reader of the raw tables')
+chk('C11', 'model_checking',
+    'Partial: the raw-table half of the statement.  The crate (C07) and membership (C08) histories of both generations are executed over the relational sqlite3 model and after every operation an independent reader '
+    '(checks/raw_reader.py: plain SELECTs over the modelled rows, nothing of the library\'s accessors) judges the stored tables: 2.x parent links resolve and are acyclic, the sibling chain of every parent and the entity chain '
+    'of every list are single acyclic lists covering all rows, entities name existing lists and tracks, a track\'s origin ids name the track and the database uuid, the file-name column agrees with the path; 1.x the path strings, '
+    'the parent list and the flattened hierarchy describe the same forest (exactly one parent row per crate, hierarchy == transitive closure, path == titles from the root) and the track lists name existing crates and tracks.',
+    'NOT covered (stated, they are facts about SQLite or belong to other checks): PRAGMA integrity_check / foreign_key_check, verify() (C17 is not applicable), blob decodability (C03), extension / file-type columns (C06). '
+    'Trusted: as C07; the reader judges the model\'s rows - that the real SQLite holds the same rows is what the differential validation and the native replays of C07/C08 establish. Reader counterexamples cannot be replayed '
+    'natively (the native twin has no reader).',
+    'bounded symbolic execution of LLVM IR (lsx, z3) over a relational sqlite3 model + independent reader of the modelled tables', 'DESIGN.md §3 C11')
 PENDING = []
 
 def main():
